@@ -685,8 +685,20 @@ package internal
 //@   at call Parse 1 pre assert [C16] the-scanned-line-itself-is-parsed: arg0 == line && nText == nClass
 //@   at call Parse 1 ghost need = ret1 == nil
 //@   at call invertCffConstraint 1 ghost need = false
-//@   loop 1 invariant [C16] every-line-is-classified-and-every-parsed-constraint-is-inverted: nText == nClass && !need
-//@   ensures [C16] every-line-was-classified-and-every-parsed-constraint-inverted: nText == nClass && !need
+//   ... and every line read is written (as it was, or as its inverted constraint)
+//@   ghost wrote bool = true
+//@   at call Text 1 pre assert [C16] the-previous-line-was-written-before-the-next-is-read: wrote
+//@   at call Text 1 ghost wrote = false
+//@   at call Fprintln 1 ghost wrote = true
+//@   at call Fprintln 2 ghost wrote = true
+//@   at call Fprintln 3 ghost wrote = true
+//@   at call Fprintln 4 ghost wrote = true
+//@   at call Fprintf 1 ghost wrote = true
+//@   at call PlusBuildLines 1 assume library-a-constraint-has-at-least-one-plus-build-line: ret1 != nil || len(ret0) >= 1
+//@   loop 2 invariant [C16] plus-build-lines-written-so-far: 0 <= idx2 && idx2 <= len(lines) && implies(idx2 >= 1, wrote) && nText == nClass && !need
+//@   at call Fprintln 1 pre assert [C16] a-line-that-is-no-constraint-is-written-unchanged: len(arg1) == 1 && dataof(arg1[0]) == line
+//@   loop 1 invariant [C16] every-line-is-classified-and-every-parsed-constraint-is-inverted: nText == nClass && !need && wrote
+//@   ensures [C16] every-line-was-classified-and-every-parsed-constraint-inverted: nText == nClass && !need && wrote
 
 // C13: directives are looked for in the whole file - package-level variable
 // initialisers included - not only in function bodies.
